@@ -376,7 +376,11 @@ func (c *L2Client) SendText(s string) error  { return websocket.Message.Send(c.w
 
 func (c *L2Client) SendReq(r M) error {
 	c.l.mu.Lock()
-	msg, err := c.l.w.build(norm(r))
+	nr := norm(r)
+	if gets(nr, "k") == "Custom" {
+		nr["dig"] = c.l.w.bodies.canon(geti(nr, "len"), geti(nr, "dig"))
+	}
+	msg, err := c.l.w.build(nr)
 	c.l.mu.Unlock()
 	if err != nil {
 		return err
